@@ -574,4 +574,186 @@ theorem hier_insertHugr (s s' b : Store Ω μ) (hh : HierInv s) (hf : FreeInv s)
         subst hs2
         exact hier_insertLinks mp1 _ s1 s2 (hier_insertNodes b parent order s s1 [] mp1 hh hf hr).1 h2
 
+/-! ### the root -/
+
+/-- The root is live and is the only node without a parent. -/
+structure RootInv (s : Store Ω μ) : Prop where
+  live : ∃ d, getNode s s.root = .ok d
+  noParent : ∀ d, getNode s s.root = .ok d → d.parent = none
+  only : ∀ i d, getNode s i = .ok d → d.parent = none → i = s.root
+
+theorem root_of_parents (s s' : Store Ω μ) (hr : RootInv s) (hroot : s'.root = s.root)
+    (fwd : ∀ d, getNode s s.root = .ok d → ∃ d', getNode s' s.root = .ok d' ∧ d'.parent = d.parent)
+    (bwd : ∀ j d', getNode s' j = .ok d' → (∃ d, getNode s j = .ok d ∧ d'.parent = d.parent) ∨ d'.parent ≠ none) :
+    RootInv s' := by
+  obtain ⟨d0, h0⟩ := hr.live
+  obtain ⟨d0', h0', hp0⟩ := fwd d0 h0
+  refine ⟨⟨d0', by rw [hroot]; exact h0'⟩, ?_, ?_⟩
+  · intro d hd
+    rw [hroot, h0'] at hd; injection hd with hd; subst hd
+    rw [hp0]; exact hr.noParent d0 h0
+  · intro i d hd hp
+    rw [hroot]
+    rcases bwd i d hd with ⟨d1, h1, hp1⟩ | hne
+    · exact hr.only i d1 h1 (by rw [← hp1]; exact hp)
+    · exact absurd hp hne
+
+theorem root_init (rootOp : Ω) (m : μ) : RootInv (init rootOp m) := by
+  have hf0 : FreeInv ({ nodes := [], links := BiMap.empty, free := [], root := 0 } : Store Ω μ) :=
+    ⟨by intro i; simp, by simp⟩
+  unfold init
+  simp only []
+  split
+  · rename_i s i heq
+    obtain ⟨_, _, _, back, _, _, _⟩ := addNodeRaw_spec _ s hf0 rootOp none (some 0) m i heq
+    obtain ⟨_, ⟨di, hdi, hpi, _⟩, _⟩ := addNodeRaw_children _ s hf0 rootOp none (some 0) m i heq
+    have only : ∀ j d, getNode s j = .ok d → j = i := by
+      intro j d hd
+      apply Classical.byContradiction
+      intro hj
+      obtain ⟨d0, h0'⟩ := back j d hj hd
+      simp [getNode] at h0'
+    refine ⟨⟨di, hdi⟩, ?_, ?_⟩
+    · intro d hd
+      have hd' : getNode s i = .ok d := hd
+      rw [hdi] at hd'; injection hd' with hd'; subst hd'; exact hpi
+    · intro j d hd _
+      exact only j d hd
+  · -- unreachable branch: adding the root to the empty store cannot raise
+    rename_i e hadd
+    exfalso
+    simp [addNodeRaw, allocSlot, registerChild, setOutsOpt, updateNodeOuts, modifyNode, getNode, setNode,
+      bind, Except.bind, pure, Except.pure] at hadd
+
+theorem root_addNodeRaw (s s' : Store Ω μ) (hr : RootInv s) (hf : FreeInv s) (op : Ω) (p : Nat)
+    (numOuts : Option Nat) (m : μ) (i : Nat) (h : addNodeRaw s op (some p) numOuts m = .ok (s', i)) :
+    RootInv s' := by
+  obtain ⟨fresh, _, _, back, _, er, _⟩ := addNodeRaw_spec s s' hf op (some p) numOuts m i h
+  obtain ⟨keep, ⟨di, hdi, hpi, _⟩, _⟩ := addNodeRaw_children s s' hf op (some p) numOuts m i h
+  refine root_of_parents s s' hr er ?_ ?_
+  · intro d hd
+    have hne : s.root ≠ i := by intro e; rw [e] at hd; exact fresh d hd
+    obtain ⟨d', e, a, _⟩ := keep s.root d hne hd
+    exact ⟨d', e, a⟩
+  · intro j d' hd'
+    by_cases hj : j = i
+    · subst hj; rw [hdi] at hd'; injection hd' with hd'; subst hd'; right; rw [hpi]; simp
+    · obtain ⟨d, hd⟩ := back j d' hj hd'
+      obtain ⟨d'', e, a, _⟩ := keep j d hj hd
+      rw [hd'] at e; injection e with e; subst e
+      exact Or.inl ⟨d, hd, a⟩
+
+theorem root_of_same (s s' : Store Ω μ) (hr : RootInv s) (hroot : s'.root = s.root)
+    (fwd : ∀ j d, getNode s j = .ok d → ∃ d', getNode s' j = .ok d' ∧ d'.parent = d.parent)
+    (bwd : ∀ j d', getNode s' j = .ok d' → ∃ d, getNode s j = .ok d) : RootInv s' := by
+  refine root_of_parents s s' hr hroot (fun d hd => fwd _ d hd) ?_
+  intro j d' hd'
+  obtain ⟨d, hd⟩ := bwd j d' hd'
+  obtain ⟨d'', e, a⟩ := fwd j d hd
+  rw [hd'] at e; injection e with e; subst e
+  exact Or.inl ⟨d, hd, a⟩
+
+theorem root_addLink (s s' : Store Ω μ) (hr : RootInv s) (src dst : Port) (h : addLink s src dst = .ok s') :
+    RootInv s' := by
+  obtain ⟨G, _, _⟩ := addLink_nodes s s' src dst h
+  obtain ⟨_, _, er, _⟩ := addLink_ok s s' src dst h
+  refine root_of_same s s' hr er ?_ G.bwd
+  intro j d hd
+  obtain ⟨d', e, g⟩ := G.fwd j d hd
+  exact ⟨d', e, g.parent⟩
+
+theorem root_deleteLink (s s' : Store Ω μ) (hr : RootInv s) (src dst : Port) (h : deleteLink s src dst = .ok s') :
+    RootInv s' := by
+  obtain ⟨m', _, rfl⟩ := deleteLink_ok s s' src dst h
+  exact root_of_same s _ hr rfl (fun j d hd => ⟨d, hd, rfl⟩) (fun j d hd => ⟨d, hd⟩)
+
+theorem root_addOrderLink (s s' : Store Ω μ) (hr : RootInv s) (a b : Nat) (h : addOrderLink s a b = .ok s') :
+    RootInv s' := by
+  unfold addOrderLink at h
+  split at h
+  · simp [pure, Except.pure] at h; subst h; exact hr
+  · exact root_addLink s s' hr _ _ h
+
+theorem root_deleteNode (s s' : Store Ω μ) (hr : RootInv s) (hs : SInv s) (node : Nat) (hne : node ≠ s.root)
+    (h : deleteNode s node = .ok s') : RootInv s' := by
+  obtain ⟨⟨d0, h0⟩, _, _, _, _, _, er, _, _⟩ := deleteNode_spec s s' hs.links hs.bound hs.free node h
+  obtain ⟨keep, back⟩ := deleteNode_children s s' hs.links node d0 h0 h
+  refine root_of_parents s s' hr er ?_ ?_
+  · intro d hd
+    obtain ⟨d', e, a, _⟩ := keep s.root d (fun e => hne e.symm) hd
+    exact ⟨d', e, a⟩
+  · intro j d' hd'
+    obtain ⟨hj, d, hd⟩ := back j d' hd'
+    obtain ⟨d'', e, a, _⟩ := keep j d hj hd
+    rw [hd'] at e; injection e with e; subst e
+    exact Or.inl ⟨d, hd, a⟩
+
+theorem root_insertNodes (b : Store Ω μ) (parent : Option Nat) : ∀ (is : List Nat) (s s' : Store Ω μ)
+    (mp mp' : Dict Nat Nat), RootInv s → FreeInv s → insertNodes s b parent is mp = .ok (s', mp') →
+    RootInv s' ∧ FreeInv s' := by
+  intro is
+  induction is with
+  | nil => intro s s' mp mp' hr hf h; simp [insertNodes] at h; rw [← h.1]; exact ⟨hr, hf⟩
+  | cons i is ih =>
+    intro s s' mp mp' hr hf h
+    unfold insertNodes at h
+    cases hd : getNode b i with
+    | error e => simp [hd] at h
+    | ok d =>
+      simp only [hd] at h
+      cases hp : resolveParent mp parent d.parent with
+      | error e => simp [hp] at h
+      | ok np =>
+        simp only [hp] at h
+        cases ha : addNode s d.op np (some d.numOuts) d.md with
+        | error e => simp [ha] at h
+        | ok r =>
+          simp only [ha] at h
+          have h1 := root_addNodeRaw s r.1 hr hf _ _ _ _ r.2 ha
+          obtain ⟨_, _, _, _, _, _, hf1⟩ := addNodeRaw_spec s r.1 hf _ _ _ _ r.2 ha
+          exact ih r.1 s' _ mp' h1 hf1 h
+
+theorem root_insertLinks (mp : Dict Nat Nat) : ∀ (ls : List (SubPort × SubPort)) (s s' : Store Ω μ),
+    RootInv s → insertLinks s mp ls = .ok s' → RootInv s' := by
+  intro ls
+  induction ls with
+  | nil => intro s s' hr h; simp [insertLinks, pure, Except.pure] at h; rw [← h]; exact hr
+  | cons e ls ih =>
+    intro s s' hr h
+    obtain ⟨a, c⟩ := e
+    unfold insertLinks at h
+    cases ha : Dict.get a.node mp with
+    | none => simp [ha] at h
+    | some a' =>
+      cases hc : Dict.get c.node mp with
+      | none => simp [ha, hc] at h
+      | some c' =>
+        simp only [ha, hc, bind, Except.bind] at h
+        cases h1 : addLink s (a', a.offset) (c', c.offset) with
+        | error err => simp [h1] at h
+        | ok s1 =>
+          simp only [h1] at h
+          exact ih s1 s' (root_addLink s s1 hr _ _ h1) h
+
+theorem root_insertHugr (s s' b : Store Ω μ) (hr : RootInv s) (hf : FreeInv s) (parent : Option Nat)
+    (mp : Dict Nat Nat) (h : insertHugr s b parent = .ok (s', mp)) : RootInv s' := by
+  unfold insertHugr at h
+  simp only [bind, Except.bind] at h
+  cases ho : hierarchyOrder b with
+  | error e => simp [ho] at h
+  | ok order =>
+    simp only [ho] at h
+    cases hrn : insertNodes s b parent order [] with
+    | error e => simp [hrn] at h
+    | ok r =>
+      obtain ⟨s1, mp1⟩ := r
+      simp only [hrn] at h
+      cases h2 : insertLinks s1 mp1 b.links.fwd with
+      | error e => simp [h2] at h
+      | ok s2 =>
+        simp only [h2, pure, Except.pure] at h
+        have hs2 : s2 = s' := by injection h with h; exact (Prod.mk.inj h).1
+        subst hs2
+        exact root_insertLinks mp1 _ s1 s2 (root_insertNodes b parent order s s1 [] mp1 hr hf hrn).1 h2
+
 end HugrVerif.Store
